@@ -128,7 +128,7 @@ class workq:
             }
 
         e = job.error
-        if e is None:
+        if not e:
             c["success"] += 1
         else:
             if e in ("timeout", "killed"):
